@@ -671,25 +671,11 @@ func ruleBC3(c *Ctx) {
 	}
 	// by-need emitters
 	n := 0
-	for _, f := range c.Mod["vm"].Syntax {
-		ast.Inspect(f, func(x ast.Node) bool {
-			as, ok := x.(*ast.AssignStmt)
-			if !ok || len(as.Lhs) != 1 || len(as.Rhs) != 1 {
-				return true
-			}
-			ix, ok := as.Lhs[0].(*ast.IndexExpr)
-			if !ok {
-				return true
-			}
-			if o := c.objOf(ix.X); o == nil || qual(o) != "vm.intrinsicsCallByNeed" {
-				return true
-			}
-			if _, _, body := c.funcOf(as.Rhs[0]); body != nil {
-				n++
-				report("vm.intrinsicsCallByNeed", "emitter for "+src(ix.Index)+" nets +1", body)
-			}
-			return true
-		})
+	for _, te := range c.tableEntries("vm", "intrinsicsCallByNeed") {
+		if _, _, body := c.funcOf(te.val); body != nil {
+			n++
+			report("vm.intrinsicsCallByNeed", "emitter for "+src(te.key)+" nets +1", body)
+		}
 	}
 	if n < 4 {
 		c.R.Bad("vm.intrinsicsCallByNeed", "emitters", token.NoPos, "expected 4 by-need emitters, found %d", n)
